@@ -204,6 +204,12 @@ func verifyFunctionOnce(w *World, specs *Specs, ct *Contract, inst map[string]st
 	}
 	st := &State{env: map[types.Object]Val{}, gh: map[string]Val{}}
 	f.initBigHeap(st)
+	for name := range specs.Tracked {
+		n := c.fresh("calls_"+name, "Int")
+		st.gh[callsKey(name)] = Val{T: n}
+		c.ghSorts[callsKey(name)] = "Int"
+		st.assume(fmt.Sprintf("(>= %s 0)", n))
+	}
 	entry := &SpecEnv{names: map[string]Val{}, pkg: src.Pkg.Types, typeArgs: typeArgs, macros: ct.macros()}
 	bind := func(v *types.Var, kind string) {
 		if v == nil {
@@ -315,6 +321,30 @@ func (f *Frame) postEnv(ex *Exit, entry *SpecEnv, sig *types.Signature) *SpecEnv
 		post.names[fmt.Sprintf("r%d", i)] = r
 		if n := sig.Results().At(i).Name(); n != "" && n != "_" {
 			post.names[n] = r
+		}
+	}
+	// Locals of the function may be named in postconditions (glue contracts tie a result to what a call
+	// returned). A name must denote one local only; at an exit where it has no value yet it is arbitrary.
+	if f.fn != nil && f.fn.Decl.Body != nil {
+		post.localFallback = func(name string) (Val, bool) {
+			var found *types.Var
+			n := 0
+			ast.Inspect(f.fn.Decl.Body, func(x ast.Node) bool {
+				if id, ok := x.(*ast.Ident); ok && id.Name == name {
+					if v, ok := f.info.Defs[id].(*types.Var); ok && v != nil {
+						found = v
+						n++
+					}
+				}
+				return true
+			})
+			if n != 1 {
+				return Val{}, false
+			}
+			if cur, ok := ex.st.env[found]; ok {
+				return cur, true
+			}
+			return f.havoc(ex.st, "unset_"+name, found.Type()), true
 		}
 	}
 	return post
